@@ -33,6 +33,11 @@ const (
 )
 
 func runC01(c *Ctx) {
+	if !importing {
+		// a connection that panics, spins or is killed by a stale handshake timer delivers nothing: C10's
+		// rules for the obfs4 connection code (and the shared distributions) are part of this property
+		importObls(c, "C10", runC10, "X10", func(k string) bool { return containsAny(k, "transports/obfs4", "common/probdist") })
+	}
 	p := c.P
 	// "both directions in use at once from one reader and one writer goroutine": the only state the two
 	// goroutines share is the length/delay distributions (the writer samples, the reader re-seeds them)
